@@ -174,6 +174,12 @@ def run(chk):
     for _ in range(chk.n(1000, 32000)):
         n = rng.choice([3, 4, 5, 6, 7, 8, chk.n(10, 20)])
         splitsG, m = rand_unrooted(rng, n)
+        if rng.random() < 0.3:
+            # closely related varieties: the same tree with all branches scaled by a power of two (exact in doubles), so that the shortest
+            # branches are a few thousandths long - positive lengths like any other
+            sc = 2.0 ** -rng.choice([7, 8, 9, 10])
+            m = [[v * sc for v in r] for r in m]
+            chk.hist['additive matrix scaled to branch lengths of a few thousandths'] += 1
         mats.append((m, 'additive'))
         gen_a.append((len(mats) - 1, splitsG))
     # --- exact tree-matrix differential ---
